@@ -33,3 +33,45 @@ def run_reproducers(ctx, prop):
         else:
             ctx.notes.append("finding %s no longer reproduces (violated now: %s)" % (f["id"], sorted(tags)))
     return hits
+
+
+# --------------------------------------------------------------------------
+# Trigger predicates: a few open findings cannot be avoided by a guard because
+# their trigger is not visible to the acting replica. For those, a violation
+# found by exploration is attributed to the finding only if the behaviour's own
+# trace contains the finding's specific trigger pattern AND the failure has the
+# listed shape; everything else is reported.
+
+def _array_gc_order(v, events):
+    """KF-ARRAY-GC-ORDER: an insert/move/append anchored on (or moving) an array
+    element that ANOTHER client deletes (or replaces) in the same history, the failure
+    being a silent content difference (no error anywhere in the trace)."""
+    if v["tag"] not in ("RefEquiv", "Converged", "BuildEquiv"):
+        return False
+    if any(e.get("err") for e in events if e["ev"] in ("Sync", "Attach", "Detach", "Ref", "Build", "Undo", "Redo")):
+        return False
+    deleted = {}   # value -> set of clients that deleted it
+    anchors = []   # (client, value)
+    for e in events:
+        if e["ev"] != "Edit" or e.get("outcome") != "ok":
+            continue
+        a = e.get("args") or {}
+        if "deleted" in a:
+            deleted.setdefault(a["deleted"], set()).add(e["c"])
+        if "anchor" in a:
+            anchors.append((e["c"], a["anchor"]))
+        if "moved" in a:
+            anchors.append((e["c"], a["moved"]))
+    return any(val in deleted and (deleted[val] - {c}) for c, val in anchors)
+
+
+TRIGGERS = {"KF-ARRAY-GC-ORDER": _array_gc_order}
+
+
+def attribute(prop, v, events):
+    """Returns the id of the open finding whose trigger predicate explains v, or None."""
+    for f in open_findings(prop):
+        t = TRIGGERS.get(f["id"])
+        if t and t(v, events):
+            return f
+    return None
